@@ -72,7 +72,7 @@ def mop_literal(m):
 def run(ctx):
     common.check_obligations(ctx, THEOREMS)
     rng = ctx.rng
-    nh = 1500 if ctx.thorough() else 150
+    nh = 12000 if ctx.thorough() else 150
     ev = 0
     ophist = {}
     coq_cases = []
@@ -114,7 +114,7 @@ def run(ctx):
                                      {'text': text, 'history': h.log, 'written': w}, exp[max(0, i - 1):i + 2], got[max(0, i - 1):i + 2])
                 ok = False
                 break
-        if ok and init_lit and h.mops and len(coq_cases) < (400 if ctx.thorough() else 60):
+        if ok and init_lit and h.mops and len(coq_cases) < (1500 if ctx.thorough() else 60):
             final = im.write_text(shx).rstrip('\n').split('\n')
             if all(ascii_ok(l) for l in final) and all(ascii_ok(p) for m in h.mops if m[0] != 'del' for p in m[2]):
                 coq_cases.append((init_lit, [mop_literal(m) for m in h.mops], final, sorted(shx.delete_on_write), h.log))
